@@ -147,6 +147,7 @@ def runStep (s : RunSt) (line : String) : RunSt × String :=
   | "overlap" :: _ => (s, "held=same inner=same")   -- a transaction's actions are a function of the transaction and the loaded flows
   | "stress-sadd" :: _ => (s, "ok")        -- every one-at-a-time order admits at most `max`
   | "stress-incwindow" :: _ => (s, "ok")
+  | "stress-get-or-create" :: _ => (s, "ok")  -- every one-at-a-time order hands all callers the value of the first
   | "stress-queue-publish" :: _ => (s, "ok")   -- Properties.C18.no_request_lost: no schedule forgets a waiting request
   | "run" :: ws => match kv ws "t" with
     | some t =>
@@ -230,6 +231,7 @@ def judgeStep (s : JudgeSt) (op out : String) : JudgeSt :=
   | "retain" :: _ => if out == "stable" then s else { s with bad := some ("lookup-answer-changed-by-another-transaction:" ++ pctEnc out) }
   | "stress-sadd" :: _ => if out == "ok" then s else { s with bad := some ("atomic-core-bound-exceeded:" ++ pctEnc out) }
   | "stress-incwindow" :: _ => if out == "ok" then s else { s with bad := some ("atomic-core-bound-exceeded:" ++ pctEnc out) }
+  | "stress-get-or-create" :: _ => if out == "ok" then s else { s with bad := some ("get-or-create-handed-out-two-values:" ++ pctEnc out) }
   | "stress-queue-publish" :: _ => if out == "ok" then s else { s with bad := some ("queued-request-forgotten-by-loop:" ++ pctEnc out) }
   | "run" :: _ => match parseObs out with
     | some os => { s with obs := s.obs ++ os }
@@ -246,7 +248,12 @@ def judgeFinish (s : JudgeSt) : String :=
     else
     let bad := violating s.accs.reverse
     match bad.find? (fun sf => !exempt.contains sf) with
-    | none => "ok"
+    | none =>
+      -- the named read-modify-write cores of this field run inside ONE critical section under the named mutex
+      let rows := requiredCoverage.filter fun r => s.accs.any (sameField r.1 r.2.1)
+      (match rows.find? (fun r => !covered s.accs.reverse r) with
+       | none => "ok"
+       | some r => s!"fail - read-modify-write-not-in-one-critical-section {pctEnc r.1}.{pctEnc r.2.1}")
     | some (st, f) =>
       let fid := (findingOf st f).getD "-"
       s!"fail {fid} unsynchronised-shared-field {pctEnc st}.{pctEnc f}"
